@@ -585,14 +585,16 @@ static void verdict_case(const uint8_t *arc, size_t n, int supported, int must_b
 	lha_reader_free(rd); lha_input_stream_free(st);
 	if (do_extract) {
 		int e;
+		char oname[64];
 		st = mem_open(&ms, arc, n, 1);
 		rd = lha_reader_new(st);
 		h = lha_reader_next_file(rd);
-		e = h ? lha_reader_extract(rd, "c07-out.bin", NULL, NULL) : 0;
+		snprintf(oname, sizeof oname, "c07-out-%d.bin", (int) getpid());
+		e = h ? lha_reader_extract(rd, oname, NULL, NULL) : 0;
 		if (e && !expected) vf_viol("c07-extract-good-but-mismatch", "%s: extract reports success, bytes produced %zu crc %04x, recorded %u / %04x", what, total, crc, rec_len, rec_crc);
 		if (!e && expected && supported) vf_viol("c07-extract-bad-but-match", "%s: extract reports failure although length and CRC match", what);
 		lha_reader_free(rd); lha_input_stream_free(st);
-		unlink("c07-out.bin");
+		unlink(oname);
 	}
 	vf_outcome(vf_mix(expected * 2 + v, crc));
 }
@@ -707,7 +709,7 @@ static void extract_walk(const uint8_t *a, size_t n)
 	char name[64];
 	while ((h = lha_reader_next_file(rd)) != NULL && k < 200) {
 		/* explicit output names: the library itself does not confine header paths */
-		snprintf(name, sizeof name, "c08-out-%d", k);
+		snprintf(name, sizeof name, "c08-out-%d-%d", (int) getpid(), k);
 		if (!(h->length > (32u << 20) && !strcmp(h->compress_method, "-pm1-")))
 			lha_reader_extract(rd, name, NULL, NULL);
 		(void) lha_reader_current_is_fake(rd);
@@ -716,7 +718,7 @@ static void extract_walk(const uint8_t *a, size_t n)
 	lha_reader_free(rd);
 	lha_input_stream_free(st);
 	while (k-- > 0) {
-		snprintf(name, sizeof name, "c08-out-%d", k);
+		snprintf(name, sizeof name, "c08-out-%d-%d", (int) getpid(), k);
 		if (unlink(name) != 0) rmdir(name);
 	}
 }
